@@ -24,6 +24,7 @@
 -/
 import SfProofs.RdwrCor
 import SfProps.C01
+import SfProps.C04
 namespace Sf.C08Refine
 open Sf
 
@@ -240,6 +241,21 @@ theorem reopen_rdwr_continues (h : H) (s : Store) (inv : RwInv h s) (fmt : Nat) 
       h'.frames = h.frames ∧ h'.ch = h.ch ∧ h'.enc = h.enc :=
   reopen_rw_effect h s inv cfg hsr hguard hnp ix pos
 
+/-- the other "pre-populated file": one written by a write-only session (open SFM_WRITE on a new file, any valid write
+    calls and header updates, close — the sessions of C04 / C07).  Opened SFM_RDWR it satisfies the invariant and stands
+    for exactly the frames written, read position 0, write position at the end.  Excluded (`hex`): WAV float/double
+    (such a file carries a PEAK chunk) and WAV data ending on an odd offset (pad byte). -/
+theorem prepopulated_opens_rdwr (ix fmt : Nat) (ch sr : Int) (h0 : H) (s0 : Store) (ops : List SOp)
+    (ho : openHandle ix {} .w fmt ch sr = .ok h0 s0) (hsr : sr ≤ 0x7FFFFFFF) (hv : ∀ op ∈ ops, op.valid ch.toNat)
+    (hex : ∀ c, openCfg fmt ch sr = some c → c.hasPeak = false ∧
+      (c.container = .wav → (sessData c ops).length < 0xFFFFFFFF ∧ (c.hdrLen + (sessData c ops).length) % 2 = 0))
+    (ix' pos : Nat) :
+    ∃ c h' s', openCfg fmt ch sr = some c ∧
+      openHandle ix' ⟨(closeHandle (runS (h0, s0) ops).1 (runS (h0, s0) ops).2).bytes, pos⟩ .rw fmt ch sr = .ok h' s' ∧
+      RwInv h' s' ∧
+      absOf h' s' = { frames := groups c.bw (sessData c ops), rpos := 0, wpos := sessFrames ch.toNat ops } :=
+  written_file_opens_rdwr ix fmt ch sr h0 s0 ops ho hsr hv hex ix' pos
+
 /-- the whole history of the statement: create a file SFM_RDWR (RAW, AU or WAV), run ANY sequence of calls, close,
     open read-only: the frames seen are those of the abstract run from the empty file -/
 theorem rdwr_session (ix : Nat) (s0 : Store) (fmt : Nat) (ch sr : Int) (h : H) (s : Store) (b : Bool)
@@ -397,6 +413,16 @@ example : CfgOf 0x040002 2 8000 eH :=
 /-- `reopen_rdwr_continues` / `reopen_sees_final`: a new 16-bit mono WAV meets `NoPad` and `CfgOf` -/
 example : ∃ h s, openHandle 0 {} .rw 0x010002 1 8000 = .ok h s ∧ NoPad h ∧ CfgOf 0x010002 1 8000 h := by
   refine ⟨_, _, rfl, by intro _; decide, open_rw_cfg 0 {} 0x010002 1 8000 _ _ rfl (Or.inl rfl)⟩
+
+/-- `prepopulated_opens_rdwr`: C04's AU session (stereo 16-bit, three frames) meets the hypotheses -/
+example : (∃ h0 s0, openHandle 0 {} .w 0x030002 2 44100 = .ok h0 s0) ∧ (∀ op ∈ C04.exOps, op.valid (2 : Int).toNat) ∧
+    (∀ c, openCfg 0x030002 2 44100 = some c → c.hasPeak = false ∧ (c.container = .wav → False)) := by
+  refine ⟨OpenRes.exists_of_isOk (by decide), by decide, ?_⟩
+  intro c hc
+  obtain ⟨f1, _⟩ := openCfg_facts hc
+  have h0 : containerOf 0x030002 = some Container.au := by decide
+  have hcc : c.container = .au := (Option.some.inj (f1.symm.trans h0))
+  exact ⟨by simp [Cfg.hasPeak, hcc], fun hw => by rw [hcc] at hw; cases hw⟩
 
 /-! ### the pad byte: why `NoPad` is asked for -/
 
